@@ -36,6 +36,7 @@ import (
 	"github.com/markusmobius/go-domdistiller/internal/logutil"
 	"github.com/markusmobius/go-domdistiller/internal/tableclass"
 	"github.com/markusmobius/go-domdistiller/internal/webdoc"
+	"github.com/markusmobius/go-domdistiller/vtrace"
 	"golang.org/x/net/html"
 )
 
@@ -249,6 +250,9 @@ func (dc *DomConverter) visitElementNodeHandler(node *html.Node) bool {
 }
 
 func (dc *DomConverter) logTableInfo(table *html.Node, tableType tableclass.Type) {
+	if vtrace.On {
+		vtrace.Emit("TableInfo", "id", dom.GetAttribute(table, "id"), "type", tableType.String())
+	}
 	if dc.logger == nil {
 		return
 	}
